@@ -27,6 +27,8 @@ def run(tier, seed):
         run_hex(rep, f"H4xSL chains of 3 consecutive operations on ONE live object prune={prune}", universe="H4", values=("S", "L"), prune=prune,
                 props=P, chain=3)
         run_hex(rep, f"HP3 x sentinel-valued contents prune={prune}", universe="HP3", values=("S", "VBNH", "VBH"), prune=prune, props=P)
+        run_hex(rep, f"H3xSL nested batches (a batch opened on the batch trie) prune={prune}", universe="H3", values=("S", "L"), prune=prune, props=P,
+                batch_len=1, exits=("commit", "abort"), nested=True, direct=False)
         run_hex(rep, f"HT x one-byte values around 0x80 prune={prune} (55-nibble leaf paths: node sizes 31 / 32)", universe="HT",
                 values=("B7f", "B80", "Bff"), prune=prune, props=P)
     if tier == "thorough":
